@@ -79,10 +79,10 @@ def csv_rule(draw, escapes=True, quotes=False, relative=False, tag_only_p=2):
     pat = draw(regex_pat(escapes, quotes))
     mods = draw(st.lists(st.one_of([amount_mod, date_mod] + ([relative_mod] if relative else [])), max_size=2))
     tag_only = draw(st.integers(0, 9)) < tag_only_p
-    tags = draw(st.lists(st.sampled_from(['recurring', 'Food', 'INCOME', 'transfer', 'big-box', 'x y']), min_size=1 if tag_only else 0, max_size=2))
-    return {'pattern': pat, 'mods': mods, 'merchant': draw(st.sampled_from(['Netflix', 'Uber', 'Big Box', 'Amazon', "O'Neil's", 'A, Inc'])),
-            'category': '' if tag_only else draw(st.sampled_from(['Food', 'Subscriptions', 'Shopping', 'Bills & Utilities'])),
-            'subcategory': draw(st.sampled_from(['', 'Streaming', 'Online', 'Rideshare'])), 'tags': tags}
+    tags = draw(st.lists(st.sampled_from(['recurring', 'Food', 'INCOME', 'transfer', 'big-box', 'x y', '#tax', 'schedule #e']), min_size=1 if tag_only else 0, max_size=2))
+    return {'pattern': pat, 'mods': mods, 'merchant': draw(st.sampled_from(['Netflix', 'Uber', 'Big Box', 'Amazon', "O'Neil's", 'A, Inc', 'Store #12', 'C# Shop'])),
+            'category': '' if tag_only else draw(st.sampled_from(['Food', 'Subscriptions', 'Shopping', 'Bills & Utilities', 'Rental #1', 'Rental #2'])),
+            'subcategory': draw(st.sampled_from(['', 'Streaming', 'Online', 'Rideshare', 'Unit #1', 'Unit #2'])), 'tags': tags}
 
 
 def csv_file(max_rules=8, **kw):
